@@ -969,6 +969,7 @@ package gts
 //@   ensures tail: forall k in offset..len(bytesOf(out)): bytesOf(out)[k] == old(bytesOf(seq)[k+length])
 //@   ensures count: len(featsOf(out)) <= len(featsOf(seq)) && fresh(featsOf(out))
 //@   callpre Delete(s, o, n): o == offset && n == length && Filter_J(0) == Filter_J(0)
+//@   callpre Within(lo, hi): lo == offset && hi == offset + length
 //@   ghost EJ(k int) int
 //@   ghost_final EJ(k) := Filter_J(k)
 //@   ensures wiring: forall k in 0..len(featsOf(out)): 0 <= EJ(k) && EJ(k) < len(featsOf(seq)) && featsOf(out)[k].Key == old(featsOf(seq)[EJ(k)].Key) &&
@@ -1106,6 +1107,7 @@ package gts
 //@   prop C11 C04
 //@   requires !isnil(complement.Location)
 //@   ensures is(out, Complemented) && !isnil(out.(Complemented).Location)
+//@   ensures inner: valOf(out.(Complemented).Location) == normId(valOf(complement.Location), length)
 //@   assigns nothing
 
 // Deleting [i, i-n) from a join of two ranges: survivors are exactly the images, and two
